@@ -25,6 +25,7 @@ func init() {
 			"(R6, symlink-mode table) Portable → symbolicLink(enforce=true), Ignore → Untracked, POSIXRaw → symbolicLink(enforce=false); " +
 			"(R7) Directory.ReadSymbolicLink accepts a readlinkat result only if it is strictly shorter than the buffer (otherwise it grows the buffer); " +
 			"(R8, no legal name refused) the name guard every open/readlink of a child goes through (ensureValidName) rejects only under an EXACT comparison with \".\" or \"..\" (or the empty name) or a search for a path separator — a prefix/suffix/substring test would turn legal entries such as \"..data\" into Problematic ones. " +
+			"(R9) scanner.symbolicLink measures a link's depth from its root-relative path (the path parameter, not the base name) when asking whether the target stays inside the root; " +
 			"Not decided: agreement with an independent walk of a real tree; stat/readdir semantics.",
 		Assumptions: []string{"readlinkat truncates silently when the buffer is too small"},
 		Run:         runC12,
@@ -32,6 +33,7 @@ func init() {
 }
 
 func runC12(c *eng.Ctx) {
+	c12LinkPath(c)
 	dir := c.MustFunc("R1", corePkg, "scanner.directory")
 	file := c.MustFunc("R3", corePkg, "scanner.file")
 	if dir == nil || file == nil {
